@@ -833,11 +833,70 @@ def index_loops_function(fn) -> int:
     return changed
 
 
+def counter_loops_function(fn) -> int:
+    """C9b: ``c = 0`` directly followed by ``for T in S: ...; c += 1`` (the increment is the last statement of the
+    body, no continue in the body, ``c`` not otherwise assigned and not read after the loop) becomes
+    ``for c, T in enumerate(S): ...``."""
+    from .astutil import clone, loop_exits
+
+    changed = 0
+
+    def rewrite(stmts):
+        nonlocal changed
+        for st in stmts:
+            if not isinstance(st, (ast.FunctionDef, ast.AsyncFunctionDef, ast.ClassDef)):
+                for fld, lst in list(_blocks(st)):
+                    setattr(st, fld, rewrite(lst))
+                if isinstance(st, ast.Try):
+                    for h in st.handlers:
+                        h.body = rewrite(h.body)
+        out = []
+        i = 0
+        while i < len(stmts):
+            st = stmts[i]
+            nxt = stmts[i + 1] if i + 1 < len(stmts) else None
+            nm = None
+            if isinstance(st, ast.Assign) and len(st.targets) == 1 and isinstance(st.targets[0], ast.Name):
+                nm = st.targets[0].id
+            elif isinstance(st, ast.AnnAssign) and st.value is not None and isinstance(st.target, ast.Name):
+                nm = st.target.id
+            val = getattr(st, "value", None)
+            if nm and isinstance(val, ast.Constant) and val.value == 0 and type(val.value) is int and isinstance(nxt, ast.For) and not nxt.orelse and nxt.body:
+                last = nxt.body[-1]
+                inc = isinstance(last, ast.AugAssign) and isinstance(last.op, ast.Add) and isinstance(last.target, ast.Name) and last.target.id == nm and isinstance(last.value, ast.Constant) and last.value.value == 1
+                others = [n for n in ast.walk(nxt) if isinstance(n, ast.Name) and n.id == nm and isinstance(n.ctx, (ast.Store, ast.Del)) and n is not getattr(last, "target", None)]
+                conts = [e for e in loop_exits(nxt) if isinstance(e, ast.Continue)]
+                later = any(isinstance(n, ast.Name) and n.id == nm for s2 in stmts[i + 2 :] for n in ast.walk(s2))
+                # the counter must not be visible elsewhere in the function either (conservative)
+                total = sum(1 for n in ast.walk(fn) if isinstance(n, ast.Name) and n.id == nm)
+                inside = sum(1 for n in ast.walk(nxt) if isinstance(n, ast.Name) and n.id == nm)
+                if inc and not others and not conts and not later and total == inside + 1 and nm not in {x.id for x in ast.walk(nxt.target) if isinstance(x, ast.Name)} and nm not in {x.id for x in ast.walk(nxt.iter) if isinstance(x, ast.Name)}:
+                    nxt.body = nxt.body[:-1] or [ast.copy_location(ast.Pass(), last)]
+                    nxt.target = ast.copy_location(ast.Tuple(elts=[ast.Name(id=nm, ctx=ast.Store()), nxt.target], ctx=ast.Store()), nxt.target)
+                    nxt.iter = ast.copy_location(ast.Call(func=ast.Name(id="enumerate", ctx=ast.Load()), args=[nxt.iter], keywords=[]), nxt.iter)
+                    out.append(nxt)
+                    changed += 1
+                    i += 2
+                    continue
+            out.append(st)
+            i += 1
+        return out
+
+    fn.body = rewrite(fn.body)
+    if changed:
+        ast.fix_missing_locations(fn)
+        par = getattr(fn, "_parent", None)
+        set_parents(fn)
+        fn._parent = par
+    return changed
+
+
 def index_loops_repo(repo) -> int:
     n = 0
     for f in list(repo.funcs.values()):
         if isinstance(f, FuncInfo) and f.outer is None:
             n += index_loops_function(f.node)
+            n += counter_loops_function(f.node)
     return n
 
 
